@@ -50,6 +50,21 @@ macro_rules! with_cfg {
     };
 }
 
+
+/// joins a scheduled task; a task that does not return within 20 s after the schedule has run out is reported as such
+/// (a call that never returns is a violation of C12 / C13, not something to wait for)
+async fn join_or_stuck<T>(h: tokio::task::JoinHandle<T>, stuck: T, panicked: impl FnOnce(String) -> T) -> T {
+    let abort = h.abort_handle();
+    match tokio::time::timeout(Duration::from_secs(20), h).await {
+        Ok(Ok(r)) => r,
+        Ok(Err(e)) => panicked(e.to_string()),
+        Err(_) => {
+            abort.abort();
+            stuck
+        }
+    }
+}
+
 fn run_once<TC: akd::configuration::Configuration>(base: &[DbRecord], batches: &[Batch], cache: &str, prefs: &[usize]) -> RunResult {
     let rt = tokio::runtime::Builder::new_current_thread().enable_all().build().unwrap();
     rt.block_on(async {
@@ -71,10 +86,7 @@ fn run_once<TC: akd::configuration::Configuration>(base: &[DbRecord], batches: &
         let mut outcomes = vec![];
         let hs = Arc::try_unwrap(hs).ok().unwrap();
         for h in hs {
-            outcomes.push(match h.await {
-                Ok(r) => r,
-                Err(e) => Err(format!("task panicked: {e}")),
-            });
+            outcomes.push(join_or_stuck(h, Err("STUCK: the call never returned".to_string()), |e| Err(format!("task panicked: {e}"))).await);
         }
         let final_eh = dir.get_epoch_hash().await.ok().map(|e| (e.0, e.1));
         let trace = db.ctl.trace.lock().unwrap().clone();
@@ -124,6 +136,9 @@ fn show_sched(choices: &[Choice]) -> String {
 
 /// the serialisability oracle; returns (tag, description) of the first violation
 fn judge<TC: akd::configuration::Configuration>(base: &[DbRecord], base_epoch: u64, batches: &[Batch], r: &RunResult) -> Option<(String, String)> {
+    if let Some(i) = r.outcomes.iter().position(|o| matches!(o, Err(e) if e.starts_with("STUCK"))) {
+        return Some(("call-never-returned".into(), format!("the publish of task {i} never returned (deadlock or lost wake-up)")));
+    }
     if r.txn_left_open {
         return Some(("transaction-left-open".into(), "a transaction is still open after all calls returned".into()));
     }
@@ -246,16 +261,10 @@ fn run_reads<TC: akd::configuration::Configuration>(base: &[DbRecord], batch: &B
         let n = reads.len() + 1;
         let choices = drive(&db.ctl, n, prefs, &move |i| if i == 0 { hp2.is_finished() } else { hr2[i - 1].is_finished() }).await;
         db.ctl.enabled.store(false, Ordering::SeqCst);
-        let publish = match Arc::try_unwrap(hp).ok().unwrap().await {
-            Ok(r) => r,
-            Err(e) => Err(format!("panicked: {e}")),
-        };
+        let publish = join_or_stuck(Arc::try_unwrap(hp).ok().unwrap(), Err("STUCK: the call never returned".to_string()), |e| Err(format!("panicked: {e}"))).await;
         let mut out = vec![];
         for h in Arc::try_unwrap(hr).ok().unwrap() {
-            out.push(match h.await {
-                Ok(r) => r,
-                Err(e) => Err(format!("panicked: {e}")),
-            });
+            out.push(join_or_stuck(h, Err("STUCK: the call never returned".to_string()), |e| Err(format!("panicked: {e}"))).await);
         }
         // afterwards, with everything quiet: what does the (shared) instance answer now?
         if shared.is_some() {
@@ -422,16 +431,10 @@ fn run_poll_or_flush<TC: akd::configuration::Configuration>(base: &[DbRecord], b
             tokio::task::yield_now().await;
         }
         hfwd.abort();
-        let publishes = match Arc::try_unwrap(hp).ok().unwrap().await {
-            Ok(r) => r,
-            Err(e) => vec![Err(format!("panicked: {e}"))],
-        };
+        let publishes = join_or_stuck(Arc::try_unwrap(hp).ok().unwrap(), vec![Err("STUCK: the call never returned".to_string())], |e| vec![Err(format!("panicked: {e}"))]).await;
         let mut out = vec![];
         for h in Arc::try_unwrap(hr).ok().unwrap() {
-            out.push(match h.await {
-                Ok(r) => r,
-                Err(e) => vec![(0, Err(format!("panicked: {e}")))],
-            });
+            out.push(join_or_stuck(h, vec![(0, Err("STUCK: the call never returned".to_string()))], |e| vec![(0, Err(format!("panicked: {e}")))]).await);
         }
         // afterwards, on the same instance
         let mut after = vec![];
@@ -461,6 +464,14 @@ fn judge_poll(r: &PollRun, roots: &[[u8; 32]], base_epoch: u64, reads: &[ReadOp]
     }
     for x in r.after.iter() {
         all.push(("a request AFTER the run, on the same instance".to_string(), x));
+    }
+    for (which, (_, rd)) in all.iter() {
+        if matches!(rd, Err(e) if e.starts_with("STUCK")) {
+            out.push(("poll-call-never-returned".to_string(), format!("schedule {}: {} never returned (deadlock or lost wake-up)", show_sched(&r.choices), which)));
+        }
+    }
+    if r.publishes.iter().any(|p| matches!(p, Err(e) if e.starts_with("STUCK"))) {
+        out.push(("poll-call-never-returned".to_string(), format!("schedule {}: the publish never returned (deadlock or lost wake-up)", show_sched(&r.choices))));
     }
     for (which, (s0, rd)) in all {
         if let Ok((e, h, verified)) = rd {
@@ -552,6 +563,14 @@ pub fn step(ex: &mut Exec, st: &mut L1State, op: &str, toks: &[&str]) -> Option<
                     let mut published: Vec<(u64, [u8; 32])> = roots.iter().enumerate().map(|(e, h)| (e as u64, *h)).collect();
                     if let Ok((e, h)) = &r.publish {
                         published.push((*e, *h));
+                    }
+                    let stuck = r.reads.iter().any(|rd| matches!(rd, Err(e) if e.starts_with("STUCK"))) || matches!(&r.publish, Err(e) if e.starts_with("STUCK"));
+                    if stuck {
+                        violations += 1;
+                        if violations <= 3 {
+                            ex.fail_tag("C13", "call-never-returned", format!("schedule {}: a request or the publish never returned (deadlock or lost wake-up)", show_sched(&r.choices)));
+                        }
+                        break; // every further stuck schedule would cost the full waiting time
                     }
                     for (k, rd) in r.reads.iter().enumerate() {
                         if let Ok((e, h, verified)) = rd {
@@ -688,11 +707,16 @@ pub fn step(ex: &mut Exec, st: &mut L1State, op: &str, toks: &[&str]) -> Option<
                         let after = match r.after.first() { Some((_, Ok((e, _, _)))) => e.to_string(), _ => "-".to_string() };
                         traces.push(format!("poll.validate {} {} {} {} {} -> ok {} {}", if rcache.starts_with("lat:") { 1 } else { 0 }, reads.len(), base_epoch, ev.join(","), ans.join(";"), r.signals.len(), after));
                     }
+                    let mut stuck = false;
                     for (tag, what) in judge_poll(&r, &roots, base_epoch, &reads, daemon) {
                         violations += 1;
+                        stuck |= tag.ends_with("call-never-returned");
                         if violations <= 3 {
                             ex.fail_tag("C13", &if flusher { tag.replace("poll-", "flush-") } else { tag }, if flusher { what.replace("poller = task", "flusher = task") } else { what });
                         }
+                    }
+                    if stuck {
+                        break;
                     }
                 }
                 (runs, violations, signalled, traces)
@@ -764,11 +788,16 @@ pub fn step(ex: &mut Exec, st: &mut L1State, op: &str, toks: &[&str]) -> Option<
                         let oc: Vec<String> = oc.iter().map(|(e, i)| format!("{i}:{e}")).collect();
                         traces.push(format!("sch.validate {} {} {} -> {}", batches.len(), base_epoch, ev.join(","), oc.join(",")));
                     }
-                    if let Some((tag, what)) = judge::<TC>(&base, base_epoch, &batches, &r) {
+                    let verdict = judge::<TC>(&base, base_epoch, &batches, &r);
+                    let stuck = matches!(&verdict, Some((t, _)) if t == "call-never-returned");
+                    if let Some((tag, what)) = verdict {
                         violations += 1;
                         if violations <= 3 {
                             ex.fail_tag("C12", &tag, format!("schedule {} ({} preemptions) of {} concurrent publishes: {}; outcomes {:?}", show_sched(&r.choices), preemptions(&chosen, &enabled), batches.len(), what, r.outcomes.iter().map(|o| o.as_ref().map(|x| x.0).map_err(|e| e.chars().take(40).collect::<String>())).collect::<Vec<_>>()));
                         }
+                    }
+                    if stuck {
+                        break;
                     }
                 }
                 (runs, violations, traces)
